@@ -213,6 +213,12 @@ func c11Scenarios(r *verdict.Run, race bool) {
 		for _, pusher := range [][]string{{"RPUSH", "q", "el-2"}, {"LPUSH", "q", "el-2"}, {"RPUSHX", "q", "el-2"}, {"LPUSHX", "q", "el-2"}, {"LMOVE", "src", "q", "LEFT", "RIGHT"}, {"RPOPLPUSH", "src", "q"}} {
 			all = append(all, scn{kind: "g:second-push-while-first-waiter-woken", form: f, consumer: pusher})
 		}
+		for _, leave := range []string{"timeout", "unblock", "close", "other-key"} {
+			if leave == "other-key" && !f.multi {
+				continue
+			}
+			all = append(all, scn{kind: "h:newest-waiter-leaves", form: f, consumer: []string{leave}})
+		}
 		if f.multi {
 			all = append(all, scn{kind: "f:multi-key-woken-once", form: f, multi: true})
 			all = append(all, scn{kind: "d:stolen-after-wake", form: f, multi: true, consumer: consumers[0]})
@@ -469,6 +475,81 @@ func c11Scenarios(r *verdict.Run, race bool) {
 			if len(elements(w1.reply)) != 1 || len(elements(w2.reply)) != 1 {
 				s.r.Report("sched/lost-wakeup/second-push/wrong-reply/"+sc.form.name, fmt.Sprintf("%s: replies %s and %s (each waiter must get one element)", s.name, w1.reply, w2.reply), s.rep())
 			}
+		case 'h':
+			// A (oldest) and B block on q; B - the newest entry of the wait queue - leaves without being served (timeout,
+			// CLIENT UNBLOCK, disconnect, or served through its other key) while A stays; then C blocks. The next push
+			// belongs to A, the one after it to C; nobody may be orphaned.
+			wB, err := newWaiter(e)
+			if err != nil {
+				return
+			}
+			defer wB.cn.Close()
+			wC, err := newWaiter(e)
+			if err != nil {
+				return
+			}
+			defer wC.cn.Close()
+			leave := sc.consumer[0]
+			waitBlocked := func(w *waiter, cmd []string) bool {
+				from := c.EventCount()
+				c.Ctl("watch blk:before-wait")
+				w.issue(cmd, 30*time.Second)
+				s.logf("client %d: %s", w.id, cmdString(cmd))
+				_, _, f := c.WaitEvent(from, func(ev host.Event) bool { return ev.Kind == "hit" && ev.Point == "blk:before-wait" && ev.ID == w.id }, 5*time.Second)
+				return f
+			}
+			if !waitBlocked(w1, cmd) {
+				r.Inconclusive("waiter did not reach blk:before-wait")
+				return
+			}
+			cmdB := cmd
+			switch leave {
+			case "timeout":
+				cmdB = sc.form.args(keys, "0.2")
+			case "other-key":
+				cmdB = sc.form.args([]string{"other", "q"}, "0")
+			}
+			if !waitBlocked(wB, cmdB) {
+				r.Inconclusive("second waiter did not reach blk:before-wait")
+				return
+			}
+			switch leave {
+			case "timeout":
+				if !wB.finished(3*time.Second) || !wB.reply.Null {
+					r.Inconclusive("the short-timeout waiter did not time out")
+					return
+				}
+			case "unblock":
+				s.do("CLIENT", "UNBLOCK", strconv.FormatInt(wB.id, 10))
+				wB.finished(3 * time.Second)
+			case "close":
+				wB.cn.Close()
+				time.Sleep(150 * time.Millisecond)
+			case "other-key":
+				s.do("RPUSH", "other", "el-other")
+				pushed = append(pushed, "el-other")
+				if !wB.finished(3 * time.Second) {
+					r.Inconclusive("the multi-key waiter was not served through its other key")
+					return
+				}
+				note(wB)
+			}
+			s.logf("client %d (newest waiter on q) left by %s", wB.id, leave)
+			if !waitBlocked(wC, cmd) {
+				r.Inconclusive("third waiter did not reach blk:before-wait")
+				return
+			}
+			push("q", "el-1")
+			ok = s.expectServed(w1, "el-1", "sched/fifo/oldest-waiter-skipped-after-newest-left/"+sc.form.name)
+			note(w1)
+			if ok {
+				ok = s.expectStillBlocked(wC, "sched/fifo/newcomer-completed-early/"+sc.form.name)
+			}
+			if ok {
+				push("q", "el-2")
+				ok = s.expectServed(wC, "el-2", "sched/lost-wakeup/waiter-orphaned-after-newest-left/"+sc.form.name)
+				note(wC)
+			}
 		case 'f':
 			// blocked on [a, q]; served through q; a later push to a must stay in a
 			from := c.EventCount()
@@ -487,7 +568,7 @@ func c11Scenarios(r *verdict.Run, race bool) {
 				ok = false
 			}
 		}
-		if sc.kind[0] == 'a' || sc.kind[0] == 'b' || sc.kind[0] == 'c' || sc.kind[0] == 'd' || sc.kind[0] == 'f' || sc.kind[0] == 'g' || sc.kind == "e:fifo-two-waiters" {
+		if sc.kind[0] == 'a' || sc.kind[0] == 'b' || sc.kind[0] == 'c' || sc.kind[0] == 'd' || sc.kind[0] == 'f' || sc.kind[0] == 'g' || sc.kind[0] == 'h' || sc.kind == "e:fifo-two-waiters" {
 			if sc.form.name != "BRPOP" && sc.form.name != "BRPOPLPUSH" || true {
 				s.conserve(pushed, delivered)
 			}
